@@ -528,12 +528,36 @@ def line(cmd, toks, extra=()):
     return " ".join([cmd] + [str(t) for t in toks] + [str(x) for x in extra])
 
 
+def valid_comps_failure(comps):
+    """The hypothesis of C13_wire_wellformed (Proof/MailboxNetWire.v: valid_comps) evaluated on real
+    ProcessorComponents: every mailbox gets exactly one sender and every plugin is listed under data types it
+    provides.  Returns None or a description."""
+    keys = [("KD", d) for d in comps.loaders]
+    seen = []
+    for d, pl in comps.plugins.items():
+        if d not in pl.provides:
+            return "plugin %s is listed under %s which it does not provide" % (type(pl).__name__, d)
+        if any(pl is x for x in seen):
+            continue
+        seen.append(pl)
+        if len(pl.provides) > 1:
+            keys.append(("KM", len(seen) - 1))
+            keys += [("KD", x) for x in pl.provides if x not in comps.loaders]
+        else:
+            keys.append(("KD", d))
+    dup = sorted({k for k in keys if keys.count(k) > 1})
+    if dup:
+        return "mailboxes with more than one sender: %s" % dup
+    return None
+
+
 class CaseRunner:
     """Everything for one case inside one worker process."""
 
     def __init__(self, case):
         self.case = case
         self.toks, self.cls, comps = model_conf(case)
+        self.invalid = valid_comps_failure(comps)
         self.sources = sources_of(comps)
         self.toks2 = list(self.toks)
         self.toks2[-1] = 2 * case["N"]
@@ -826,7 +850,8 @@ def exec_task(task):
             out["n_disagreements"] += 1
             if len(out["disagreements"]) < 2:
                 out["disagreements"].append({"what": d, "schedule": res.schedule, "names": bnd.names})
-    out["wiring"] = runner.wiring_problem
+    out["wiring"] = runner.wiring_problem or (
+        ("components outside valid_comps (hypothesis of C13_wire_wellformed): " + runner.invalid) if runner.invalid else None)
     import zlib
     out["hashes"] = sorted({zlib.crc32(repr(r.schedule).encode()) for r in results})
     if results:
@@ -988,10 +1013,17 @@ def run(ctx):
         "acquisition / wait (plugin compute, Plugin.iter bookkeeping, saver writes are lock-free and thread-local)")
     ctx.assumptions.append("harness plugins are 1:1 (one chunk out per chunk of every dependency, aligned chunk "
                            "boundaries); worker pools (max_workers > 1) are outside the model: lazy is off there")
+    import resource
     tasks = build_tasks(ctx)
     t0 = time.time()
+    c0 = resource.getrusage(resource.RUSAGE_CHILDREN)
     results = run_tasks(tasks)
-    ctx.notes.append("exploration wall time %.1fs for %d tasks" % (time.time() - t0, len(tasks)))
+    c1 = resource.getrusage(resource.RUSAGE_CHILDREN)
+    cpu = (c1.ru_utime + c1.ru_stime) - (c0.ru_utime + c0.ru_stime)
+    ctx.notes.append("exploration wall time %.1fs for %d tasks; CPU time of the worker processes %.1fs "
+                     "(= %.1fs per core on 16 idle cores)" % (time.time() - t0, len(tasks), cpu, cpu / 16.0))
+    walls = sorted((r.get("wall", 0) for r in results), reverse=True)
+    ctx.notes.append("sum of task wall times %.1fs, longest task %.1fs" % (sum(walls), walls[0] if walls else 0))
     slow = sorted([r for r in results if "wall" in r], key=lambda r: -r["wall"])[:6]
     ctx.notes.append("slowest tasks: " + "; ".join("%s %s %d runs %.1fs" % (r["kind"], tag(r["case"]), r["runs"], r["wall"])
                                                    for r in slow))
